@@ -86,7 +86,14 @@ Proof.
   - rewrite IHPermutation1. apply IHPermutation2.
 Qed.
 
-(* ---------- generic facts on Forall2 ---------- *)
+(* ---------- generic facts on NoDup / Forall2 ---------- *)
+
+Lemma NoDup_app_l {A} (l r : list A) : NoDup (l ++ r) -> NoDup l.
+Proof.
+  induction l as [|a l IH]; simpl; intros H; [constructor|].
+  inversion H; subst. constructor; [|auto].
+  intros Hin. apply H2. apply in_or_app. auto.
+Qed.
 
 Lemma Forall2_In_l {A B} (R : A -> B -> Prop) (l : list A) (l' : list B) (a : A) :
   Forall2 R l l' -> In a l -> exists b, In b l' /\ R a b.
@@ -109,7 +116,7 @@ Proof.
   intros ND ex s1 s2 k H1 H2 Hk R1 R2.
   inversion ND as [|? ? Hnb ND']; subst.
   assert (exl : forall s k1 k2, In s l -> In k1 ks -> In k2 ks -> R s k1 -> R s k2 -> k1 = k2)
-    by (intros; eapply ex; eauto).
+    by (intros s0 k1 k2 ? ? ? ? ?; apply (ex s0 k1 k2); auto).
   assert (cross : forall s, In s l -> R s k -> R a k -> False).
   { intros s Hs Rs Ra.
     destruct (Forall2_In_l _ _ _ _ F Hs) as [k' [Hk' Rk']].
@@ -332,14 +339,13 @@ Proof.
     assert (Hsub : forall k, In k ks -> In k keys).
     { intros k Hk. apply (Permutation_in _ (Permutation_sym P)). apply in_or_app. auto. }
     assert (NDks : NoDup ks).
-    { eapply NoDup_app_remove_r. eapply Permutation_NoDup; eassumption. }
+    { apply (NoDup_app_l ks rest). eapply Permutation_NoDup; eassumption. }
     split.
     + intros s Hs. destruct (Forall2_In_l _ _ _ _ F Hs) as [k [Hk Hc]]. eauto.
     + intros s1 s2 k H1 H2 Hk C1 C2.
       destruct (Forall2_In_l _ _ _ _ F H1) as [k1 [Hk1 Hc1]].
       assert (k1 = k) by (apply (excl s1); auto). subst k1.
       eapply (Forall2_inj _ _ _ F NDks); eauto.
-      intros s k1 k2 Hs Hi1 Hi2. apply excl; auto.
   - intros [Hall Hinj]. apply multisig_complete; assumption.
 Qed.
 
